@@ -473,21 +473,23 @@ theorem notes_reports_spec (img : Bytes) (hwf : WellFormedImage img) (o : Obj) (
 
 /-- **segment_notes_reports_spec** (PT_NOTE segment accessor): the same for
     `note_segment_accessor(elf, segments[j])` and the bytes of `img` in the segment's file range
-    (`C02.segFileBytes img j` = `slice img p_offset p_filesz`) -/
+    (`C02.segFileBytes img j` = `slice img p_offset p_filesz`).  `SegsFrom img o` is the segment side of a loaded
+    object (`LoadedTables.segs_of_load`); it is kept by segment data requests (returned here) and by section data
+    requests (`SegsFrom.of_segs_eq`: they do not touch the segments) -/
 theorem segment_notes_reports_spec (img : Bytes) (o : Obj) (hL : LoadedFrom img o) (hS : SegsFrom img o) (j : Nat)
     (hj : j < eh img "e_phnum") (ns : List Spec.Note) (hf : ∀ n ∈ ns, n.Fits)
     (hbytes : segFileBytes img j = Spec.encodeNotes (encOf img) ns) (hsz : ph img j "p_filesz" ≤ 4294967293)
     (k : BitVec 32) :
-    ∃ o1, LoadedFrom img o1 ∧ inspect o (.segNoteNum j) = .ok (o1, .num ns.length) ∧
+    ∃ o1, LoadedFrom img o1 ∧ SegsFrom img o1 ∧ inspect o (.segNoteNum j) = .ok (o1, .num ns.length) ∧
       inspect o (.segNote j k) = .ok (o1, .note (specNote ns k.toNat)) := by
-  obtain ⟨o1, g1, h1, hL1, _, hfs, hd, hlen⟩ := segResident_ready img o hL hS j hj
+  obtain ⟨o1, g1, h1, hL1, hS1, _, hfs, hd, hlen⟩ := segResident_ready img o hL hS j hj
   have hok : C13.SrcOk (segNoteSrc g1) := fun a ha => hlen a ha
   have hv : C13.NoteSrc.view (segNoteSrc g1) = Spec.encodeNotes (encOf img) ns := by
     rw [← hbytes, ← hd]; rfl
   obtain ⟨pos, hp, hn, hg⟩ := note_source_reports (encOf img) (segNoteSrc g1) hok
     (by simp only [segNoteSrc]; rw [hfs]; exact hsz) ns hf hv
   have henc : o1.enc = encOf img := hL1.enc
-  refine ⟨o1, hL1, ?_, ?_⟩
+  refine ⟨o1, hL1, hS1, ?_, ?_⟩
   · simp only [inspect, h1, henc, hp, hn]; rfl
   · simp only [inspect, h1, henc, hp, hg k]; rfl
 
@@ -504,7 +506,7 @@ example (k : StreamKind) (isLazy : Bool) :
   · obtain ⟨o1, _, _, h⟩ := notes_reports_spec exImg exImg_wf r.obj h3 6 (by decide +kernel) exNotes (by decide)
       (by decide +kernel) (by decide +kernel) idx
     exact ⟨o1, h⟩
-  · obtain ⟨o1, _, _, h⟩ := segment_notes_reports_spec exImg r.obj h3 h4 0 (by decide +kernel) exNotes (by decide)
+  · obtain ⟨o1, _, _, _, h⟩ := segment_notes_reports_spec exImg r.obj h3 h4 0 (by decide +kernel) exNotes (by decide)
       (by decide +kernel) (by decide +kernel) idx
     exact ⟨o1, h⟩
 example : specNote exNotes 1 = some ⟨2#32, [0x61, 0x62], none, 0#32⟩ ∧ specNote exNotes 2 = none := by decide
@@ -642,6 +644,52 @@ example (k : StreamKind) (isLazy : Bool) :
   exact ⟨o1, b1, g1, g2⟩
 example : Spec.tableEntry (encOf exImg) 2 (secFileBytes exImg 8) 2 = some 0x8002 ∧
     Spec.tableEntry (encOf exImg) 2 (secFileBytes exImg 8) 3 = none := by decide +kernel
+
+/-! ### section queries do not touch the segments (so `SegsFrom` survives them) -/
+
+theorem secResident_segs {o : Obj} {i : Nat} {o1 : Obj} {b1 : SecBuf} (h : secResident o i = some (o1, b1)) :
+    o1.segs = o.segs := by
+  unfold secResident at h
+  split at h
+  · cases h
+  · simp only [Option.some.injEq, Prod.mk.injEq] at h; rw [← h.1]
+
+theorem symSetup_segs {o : Obj} {i : Nat} {o1 : Obj} {t : SymTab} (h : symSetup o i = some (o1, t)) :
+    o1.segs = o.segs := by
+  unfold symSetup at h
+  split at h
+  · cases h
+  · rename_i oa b ha
+    split at h
+    · simp only [Option.some.injEq, Prod.mk.injEq] at h; rw [← h.1]; exact secResident_segs ha
+    · rename_i ob s hb
+      simp only [Option.some.injEq, Prod.mk.injEq] at h; rw [← h.1, secResident_segs hb, secResident_segs ha]
+
+theorem dynSetup_segs {o : Obj} {i : Nat} {o1 : Obj} {a : DynAcc} (h : dynSetup o i = some (o1, a)) :
+    o1.segs = o.segs := by
+  unfold dynSetup at h
+  split at h
+  · cases h
+  · rename_i oa b ha
+    split at h
+    · simp only [Option.some.injEq, Prod.mk.injEq] at h; rw [← h.1]; exact secResident_segs ha
+    · rename_i ob s hb
+      simp only [Option.some.injEq, Prod.mk.injEq] at h; rw [← h.1, secResident_segs hb, secResident_segs ha]
+
+/-- the string / note / dynamic / symbol queries on sections leave the segments alone: with
+    `SegsFrom.of_segs_eq`, the segment side of the loaded object survives every theorem of §2a–2e -/
+theorem section_query_keeps_segs (o o1 : Obj) (out : Out) (q : Query)
+    (hq : (∃ i k, q = .str i k) ∨ (∃ i, q = .noteNum i) ∨ (∃ i k, q = .note i k) ∨ (∃ i, q = .dynNum i) ∨
+      (∃ i k, q = .dyn i k) ∨ (∃ i, q = .symNum i) ∨ (∃ i k, q = .sym i k))
+    (h : inspect o q = .ok (o1, out)) : o1.segs = o.segs := by
+  rcases hq with ⟨i, k, rfl⟩ | ⟨i, rfl⟩ | ⟨i, k, rfl⟩ | ⟨i, rfl⟩ | ⟨i, k, rfl⟩ | ⟨i, rfl⟩ | ⟨i, k, rfl⟩ <;>
+    simp only [inspect] at h <;> (repeat' split at h) <;>
+    first
+    | (simp only [pure, Except.pure, Except.ok.injEq, Prod.mk.injEq] at h
+       rw [← h.1]
+       first | rfl | (apply secResident_segs; assumption) | (apply symSetup_segs; assumption)
+             | (apply dynSetup_segs; assumption))
+    | (cases h <;> rfl)
 
 /-! ### 3. truncated files (C17): table read-outs of a prefix that loads
 
